@@ -30,7 +30,7 @@ CLAIMED = {
 }
 
 NA = {
- "C14": "whole-program service behaviour (goroutines, tickers, HTTP servers, outbound polling, restarts): not encodable by symbolic execution of SSA within reach; its wiring is decided piecewise in C12, C13, C16, C18",
+ "C14": "whole-program liveness over time (tickers, repeated poll cycles, restarts) on logs served as real tlog tiles: the bytes inside tiles and tlog.TileHashReader are a contract here and a feed cycle is analysed one at a time, so 'catches up within a bounded number of poll intervals' has no encoding within reach (the seeded change C18g - a tile cache that only misbehaves in the second cycle - is the documented instance). Its parts are decided piecewise: wiring of the real omniwitness.Main in C12 (H-WIRE), one feed cycle in C13, serving in C16, tile addressing and proof completeness in C18, crash/restart of the store in C06",
  "C17": "ranges over the concrete entries of two YAML files: no quantified variable for a solver to decide, and the parsers involved (yaml, key parsing, url) are outside the encodable set",
 }
 
